@@ -16,7 +16,7 @@ EXPLAINED = {
 
 class C02(Property):
     id = "C02"
-    lean_module = "RosuModel.Props.C02All"   # imports Props/C02Slider.lean, Props/C02Timing.lean, Props/C02Codec.lean (which import Props/C02.lean) and Props/C02File.lean; all in namespace Rosu.C02
+    lean_module = "RosuModel.Props.C02All"   # imports Props/C02Slider.lean, Props/C02Timing.lean, Props/C02Codec.lean (which import Props/C02.lean), Props/C02File.lean and Props/C02Decoded.lean; all in namespace Rosu.C02
     namespace = "Rosu.C02"
     design_ref = "5.2"
     required_theorems = ["trim_cons_space", "kvSplit_kvLine", "kv_line_roundtrip", "int_display_parse", "int_display_clean",
@@ -32,7 +32,8 @@ class C02(Property):
                          "codecLaws_float", "codecLaws_float32", "editor_block_roundtrip_ieee", "difficulty_block_roundtrip_ieee",
                          "events_block_roundtrip_ieee", "printBits_intBits_f64", "printBits_of_int_value", "intPrintLaw_float",
                          "general_block_roundtrip_ieee",
-                         "roundtrip_rep_partial", "roundtrip_rep_counts", "toyMap_timeline_hyps"]
+                         "roundtrip_rep_partial", "roundtrip_rep_counts", "toyMap_timeline_hyps",
+                         "records_roundtrip_decoded", "records_roundtrip_decoded_of_limitRep"]
     partial_theorems = {
         "editor_block_roundtrip / difficulty_block_roundtrip / general_block_roundtrip / events_block_roundtrip / records_roundtrip":
             "law-dependent: proved for every number codec satisfying CodecLaws (parse(print x) = x on the representable values; printed numbers are non-empty and made of "
@@ -51,6 +52,14 @@ class C02(Property):
         "records_roundtrip": "file level for the six record sections only (format version, general on the preserved view, editor, metadata with positive ids, difficulty, background/breaks, "
             "colours with alpha 255): the re-decoded Beatmap has these fields equal to the original's. It assumes of the [TimingPoints] and [HitObjects] blocks only their shape "
             "(LF-terminated lines that are neither headers nor skipped: RtFile.ListBlockShape) — whatever those lines do, they do not touch the record fields",
+        "records_roundtrip_decoded / records_roundtrip_decoded_of_limitRep":
+            "records_roundtrip for every DECODED map (the property's own quantifier): decode any bytes (any encoding, hostile content) to m, encode, decode again. The assumption RepRecords "
+            "is discharged by the `Decoded` invariant (C04.decoded_inv, Lemmas/DecodedInv*.lean — no codec law, only closed facts about the decoder's constants, ConstFacts). Residual "
+            "hypotheses, each genuinely needed: the codec laws (CodecLaws, IntPrintLaw); FloatsRep — the codec represents the map's float values (or the single law LimitRep: everything "
+            "within the parse limit is representable; a theorem for the toy codec); NoDoubleSlash — neither file name contains `//` (finding F16: the real code fails `rt` exactly there, "
+            "replayed: `AudioFilename: a\\\\b`, `AudioFilename: a/\\b`, `0,0,\"a\\\\\\\\b.png\",0,0`, `0,0,\"a/\\b.png\",0,0` → explained=file-name-contains-double-slash); and, as in "
+            "records_roundtrip, the shape of the two list blocks. The conclusion is sharper than records_roundtrip's: m2.colors = m.colors (a decoded map has alpha 255 everywhere). "
+            "Non-vacuity: C04.decodedSample_* (a hostile file decoded, finalised, encoded in the kernel on the toy codec)",
         "circle_rt / spinner_rt / hold_rt": "law-dependent, one line at a time (any decoder state): the line written for a circle / spinner / hold note decodes to the same kind of object with the "
             "same start time, position (integral coordinates; a spinner's position is not carried), combo data (new_combo or-ed with the decoder's forcing rule) and duration. The duration "
             "goes through an arithmetic inverse (max(end − start, 0) resp. max(start, end) − start), taken as a hypothesis on the two values — exact in exact arithmetic, not proved for IEEE. "
@@ -124,7 +133,8 @@ class C02(Property):
                   "is its own inverse), section level for all six record sections (the block encode_<section> writes, run through parse_<section> from the decoder's initial state, is accepted "
                   "line by line and gives the section back on the preserved view: all ten metadata fields incl. positive ids; combo and custom colours with alpha 255; editor; difficulty "
                   "inside the clamps; general with the encoder's SampleSet / CountdownOffset / SpecialStyle / flag rules; background file and breaks), and file level for those sections "
-                  "(records_roundtrip: encode, UTF-8 bytes, reader, framing, Beatmap decoder, finalisation), and line level for circles, spinners and hold notes (circle_rt, spinner_rt, "
+                  "(records_roundtrip: encode, UTF-8 bytes, reader, framing, Beatmap decoder, finalisation; records_roundtrip_decoded: the same for every map OBTAINED BY DECODING — the representability "
+                  "assumption is discharged by the `Decoded` invariant, leaving the codec laws, representability of the float values and the F16 exclusion), and line level for circles, spinners and hold notes (circle_rt, spinner_rt, "
                   "hold_rt, samples_bank_info_rt, samples_rt) and sliders (path_string_roundtrip over the decidable class RepPath, slider_rt, slider_rt_exact, node_samples_rt). "
                   "For timing points: line level (timing_line_rt: a timing point's line comes back as that point; inherited_line_rt: an inherited line "
                   "comes back as the velocity / kiai / sample fields in effect), the encoder's redundancy suppression loses nothing under exact arithmetic (redundant_group_no_effect), and file level "
